@@ -13,7 +13,7 @@ func checkC17(tier string, seed int64) int {
 	defer c.Close()
 	steps := 3
 	if tier == "thorough" {
-		steps = 5
+		steps = 4 // 5 steps (10 actions each, map-order forks) did not finish within 2 h
 	}
 	c.Eng.Cfg = map[string]int{"c17_steps": steps}
 	c.Eng.MaxPaths = 3_000_000
